@@ -241,12 +241,26 @@ class Facts:
         return [f for f in self.fns if f.item.impl_self_def == self_def and f.item.name == name]
 
     def body_of(self, f):
-        """For an async fn / fn returning an async block: the coroutine child holding the real body."""
+        """For an async fn / fn returning an async block: the coroutine child holding the real body.
+        `#[tracing::instrument]` wraps the user code in one more `async move {}` block: descend through
+        wrappers whose inner coroutine is constructed inside the attribute macro's expansion."""
         cor = [c for c in f.children if c.kind == "coroutine"]
-        if f.is_async and len(cor) >= 1:
-            # the async fn desugars to exactly one top-level coroutine
-            return cor[0]
-        return f
+        if not (f.is_async and len(cor) >= 1):
+            return f
+        cur = cor[0]
+        for _ in range(4):
+            kids = [c for c in cur.children if c.kind == "coroutine"]
+            nxt = None
+            for b in cur.blocks:
+                for st in b["s"]:
+                    if st["k"] == "assign" and st["r"]["k"] == "agg" and st["r"]["ak"] == "coroutine" and any(m.startswith("tracing_attributes:") for m in st.get("mac", [])):
+                        for k in kids:
+                            if k.path == st["r"]["def"]:
+                                nxt = k
+            if nxt is None:
+                break
+            cur = nxt
+        return cur
 
     def adt_fields(self, path, variant=None):
         a = self.adts[path]
